@@ -1,5 +1,341 @@
+import Anything.Lemmas.Mul4
 import Anything.Model.Eval
-import Anything.Spec.Quantity
+/-!
+# C09 — temperature scales convert by their defining affine formulas
+
+`convert t q s p x` is the model's `Compound::factor` from the scale `s` with SI
+prefix exponent `p` to the scale `t` with prefix exponent `q` (each alone, power
+one). The formulas hold for **every** rational magnitude and every pair of prefixes;
+chains of any length compose; and an offset scale that does not stand alone with
+power one never has its zero point added: the conversion is refused.
+-/
+
 namespace Anything.Props.C09
-theorem C09_placeholder : True := trivial
+open Anything Anything.Spec
+
+inductive TScale | K | C | F
+  deriving DecidableEq, Repr
+
+def key : TScale → UnitKey
+  | .K => .base .Kelvin
+  | .C => .derived 3728342790
+  | .F => .derived 981617578
+
+/-- The three scales are the table's kelvin, `°C` and `°F`. -/
+theorem C09_table :
+    (Generated.units.find? (fun u => u.id == 3728342790)).map (fun d => (d.sing, d.dims, d.conv))
+      = some (['°', 'C'], [(.Kelvin, 1)], .offset 27315 100) ∧
+    (Generated.units.find? (fun u => u.id == 981617578)).map (fun d => (d.sing, d.dims, d.conv))
+      = some (['°', 'F'], [(.Kelvin, 1)], .methods 5 9 45967 180 9 5 (-45967) 100) := by
+  decide +kernel
+
+/-- The defining formulas: a point `x` on the scale, in kelvin. -/
+def toK : TScale → Rat → Rat
+  | .K, x => x
+  | .C, x => x + 27315 / 100
+  | .F, x => (x - 32) * 5 / 9 + 27315 / 100
+
+def fromK : TScale → Rat → Rat
+  | .K, y => y
+  | .C, y => y - 27315 / 100
+  | .F, y => (y - 27315 / 100) * 9 / 5 + 32
+
+theorem fromK_toK (t : TScale) (x : Rat) : fromK t (toK t x) = x := by
+  cases t <;> simp [fromK, toK]
+
+theorem toK_fromK (t : TScale) (y : Rat) : toK t (fromK t y) = y := by
+  cases t <;> simp [fromK, toK]
+
+/-- The scale alone with power one, with an SI prefix exponent. -/
+def cmp (t : TScale) (p : Int) : Compound := [(key t, { power := 1, pfx := p })]
+
+theorem conv_K : Units.conversion (key .K) = .none := rfl
+theorem conv_C : Units.conversion (key .C) = .offset 27315 100 := by decide +kernel
+theorem conv_F : Units.conversion (key .F) = .methods 5 9 45967 180 9 5 (-45967) 100 := by decide +kernel
+
+theorem powers_C : (UnitKey.powers (.derived 3728342790) [] 1).1 = [(.base .Kelvin, 1)] := by decide +kernel
+theorem powers_F : (UnitKey.powers (.derived 981617578) [] 1).1 = [(.base .Kelvin, 1)] := by decide +kernel
+
+theorem bases (t : TScale) (p : Int) : (Compound.baseUnits (cmp t p)).2 = [(.base .Kelvin, 1)] := by
+  cases t
+  · rfl
+  · simp only [Compound.baseUnits, cmp, List.foldl_cons, List.foldl_nil, key]
+    exact powers_C
+  · simp only [Compound.baseUnits, cmp, List.foldl_cons, List.foldl_nil, key]
+    exact powers_F
+
+theorem scaleIn_cmp (s : TScale) (p : Int) (x : Rat) :
+    Compound.scaleIn true (cmp s p) x = .ok (toK s (x * (10 : Rat) ^ p)) := by
+  cases s
+  · simp [Compound.scaleIn, cmp, conv_K, Compound.applyConversion, toK, tenPow_eq, pure, Except.pure,
+      bind, Except.bind]
+  · simp [Compound.scaleIn, cmp, conv_C, Compound.applyConversion, toK, tenPow_eq, pure, Except.pure,
+      Compound.isScale, mkFrac, bind, Except.bind]
+  · simp [Compound.scaleIn, cmp, conv_F, Compound.applyConversion, toK, tenPow_eq, pure, Except.pure,
+      Compound.isScale, mkFracI, bind, Except.bind]
+    ring
+
+theorem scaleOut_cmp (t : TScale) (q : Int) (y : Rat) :
+    Compound.scaleOut (cmp t q) y = .ok (fromK t y / (10 : Rat) ^ q) := by
+  cases t
+  · simp [Compound.scaleOut, cmp, conv_K, Compound.applyConversion, fromK, tenPow_eq, pure, Except.pure,
+      bind, Except.bind]
+  · simp [Compound.scaleOut, cmp, conv_C, Compound.applyConversion, fromK, tenPow_eq, pure, Except.pure,
+      bind, Except.bind, Compound.isScale, mkFrac]
+    ring
+  · simp [Compound.scaleOut, cmp, conv_F, Compound.applyConversion, fromK, tenPow_eq, pure, Except.pure,
+      bind, Except.bind, Compound.isScale, mkFracI]
+    ring
+
+/-- `x` on scale `s` (prefix `p`) converted to scale `t` (prefix `q`). -/
+abbrev convert (t : TScale) (q : Int) (s : TScale) (p : Int) (x : Rat) :=
+  Compound.factor (cmp t q) (cmp s p) x
+
+/-- **C09 (all nine ordered pairs, any prefixes, every magnitude).** The conversion goes
+through kelvin by the defining formulas `K = C + 273.15`, `C = (F − 32)·5/9`. -/
+theorem C09_convert (t : TScale) (q : Int) (s : TScale) (p : Int) (x : Rat) :
+    convert t q s p x = .ok (some (fromK t (toK s (x * (10 : Rat) ^ p)) / (10 : Rat) ^ q)) := by
+  unfold convert Compound.factor
+  have e1 : (cmp t q).isEmpty = false := rfl
+  have e2 : (cmp s p).isEmpty = false := rfl
+  simp only [e1, e2, Bool.or_self, Bool.false_eq_true, ↓reduceIte, bases]
+  have : Compound.sameBases [(UnitKey.base Base.Kelvin, (1 : Int))] [(UnitKey.base Base.Kelvin, 1)] = true := by
+    decide
+  simp only [this, Bool.not_true, Bool.false_eq_true, ↓reduceIte, scaleIn_cmp, bind, Except.bind,
+    scaleOut_cmp, pure, Except.pure]
+
+/-- The six formulas of the property, spelled out (no prefixes). -/
+theorem C09_C_to_K (x : Rat) : convert .K 0 .C 0 x = .ok (some (x + 27315 / 100)) := by
+  rw [C09_convert]; simp [fromK, toK]
+theorem C09_K_to_C (x : Rat) : convert .C 0 .K 0 x = .ok (some (x - 27315 / 100)) := by
+  rw [C09_convert]; simp [fromK, toK]
+theorem C09_F_to_C (x : Rat) : convert .C 0 .F 0 x = .ok (some ((x - 32) * 5 / 9)) := by
+  rw [C09_convert]; simp [fromK, toK]
+theorem C09_C_to_F (x : Rat) : convert .F 0 .C 0 x = .ok (some (x * 9 / 5 + 32)) := by
+  rw [C09_convert]; simp [fromK, toK]
+theorem C09_F_to_K (x : Rat) : convert .K 0 .F 0 x = .ok (some ((x - 32) * 5 / 9 + 27315 / 100)) := by
+  rw [C09_convert]; simp [fromK, toK]
+theorem C09_K_to_F (x : Rat) : convert .F 0 .K 0 x = .ok (some ((x - 27315 / 100) * 9 / 5 + 32)) := by
+  rw [C09_convert]; simp [fromK, toK]
+
+/-- **C09 (exactly invertible).** -/
+theorem C09_inverse (t : TScale) (q : Int) (s : TScale) (p : Int) (x : Rat) :
+    ∃ y, convert t q s p x = .ok (some y) ∧ convert s p t q y = .ok (some x) := by
+  refine ⟨_, C09_convert t q s p x, ?_⟩
+  rw [C09_convert]
+  have h1 : (10 : Rat) ^ q ≠ 0 := zpow_ne_zero _ (by norm_num)
+  have h2 : (10 : Rat) ^ p ≠ 0 := zpow_ne_zero _ (by norm_num)
+  congr 2
+  rw [div_mul_cancel₀ _ h1, toK_fromK, fromK_toK, mul_div_cancel_right₀ _ h2]
+
+/-- Convert along a path of intermediate scales. -/
+def chain (x : Rat) (s : TScale) (p : Int) : List (TScale × Int) → Except CErr (Option Rat)
+  | [] => .ok (some x)
+  | (t, q) :: rest =>
+    match convert t q s p x with
+    | .ok (some y) => chain y t q rest
+    | other => other
+
+/-- **C09 (chains compose).** Any chain of conversions — of any length — ends where the
+direct conversion to its last scale does. -/
+theorem C09_chain (x : Rat) (s : TScale) (p : Int) (path : List (TScale × Int)) (t : TScale) (q : Int) :
+    chain x s p (path ++ [(t, q)]) = convert t q s p x := by
+  induction path generalizing x s p with
+  | nil => simp [chain, C09_convert]
+  | cons hd rest ih =>
+    obtain ⟨m, r⟩ := hd
+    simp only [List.cons_append, chain, C09_convert]
+    rw [ih, C09_convert]
+    have h1 : (10 : Rat) ^ r ≠ 0 := zpow_ne_zero _ (by norm_num)
+    rw [div_mul_cancel₀ _ h1, toK_fromK]
+
+/-! ### An offset scale that does not stand alone with power one -/
+
+theorem applyConversion_err (pow : Int) (ratio : Rat) (flag : Bool) (c : Conversion) (e : CErr)
+    (h : Compound.applyConversion pow ratio flag c = .error e) : e = .conversion := by
+  cases c with
+  | none => simp [Compound.applyConversion] at h
+  | factor n d =>
+    simp only [Compound.applyConversion] at h
+    split at h <;> simp at h
+  | offset n d =>
+    simp only [Compound.applyConversion] at h
+    split at h
+    · simp at h; exact h.symm
+    · simp at h
+  | methods a b c d e' f g i =>
+    simp only [Compound.applyConversion] at h
+    split at h
+    · simp at h; exact h.symm
+    · split at h <;> simp at h
+
+theorem foldlM_err {α : Type} (f : Rat → α → Except CErr Rat) (l : List α)
+    (hall : ∀ v a e, f v a = .error e → e = .conversion)
+    (x : α) (hx : x ∈ l) (hf : ∀ v, f v x = .error .conversion) (v : Rat) :
+    l.foldlM f v = .error .conversion := by
+  induction l generalizing v with
+  | nil => simp at hx
+  | cons a rest ih =>
+    rw [List.foldlM_cons]
+    cases hfa : f v a with
+    | error e => rw [hall v a e hfa]; rfl
+    | ok v' =>
+      rcases List.mem_cons.mp hx with h | h
+      · subst h; rw [hf v] at hfa; exact absurd hfa (by simp)
+      · exact ih h v'
+
+/-- An offset scale (`°C`, `°F`): not a pure factor. -/
+def IsOffsetScale (u : UnitKey) : Prop := isProp u = false
+
+theorem applyConversion_offset_refused (u : UnitKey) (h : IsOffsetScale u) (pow : Int) (ratio : Rat)
+    (flag : Bool) (hbad : flag = false ∨ pow.natAbs ≠ 1) :
+    Compound.applyConversion pow ratio flag (Units.conversion u) = .error .conversion := by
+  unfold IsOffsetScale isProp at h
+  cases hc : Units.conversion u with
+  | none => simp [hc] at h
+  | factor n d => simp [hc] at h
+  | offset n d =>
+    simp only [Compound.applyConversion]
+    rcases hbad with hb | hb
+    · simp [hb]
+    · simp [hb]
+  | methods a b c d e f g i =>
+    simp only [Compound.applyConversion]
+    rcases hbad with hb | hb
+    · simp [hb]
+    · simp [hb]
+
+/-- "Anywhere but alone with power one": the compound has another unit besides the
+scale, or the scale is squared, inverted, …. -/
+def NotAlone (c : Compound) (e : UnitKey × State) : Prop := ¬ (c.length = 1 ∧ e.2.power = 1)
+
+theorem isScale_false (c : Compound) (e : UnitKey × State) (h : NotAlone c e) :
+    Compound.isScale c e.2 = false := by
+  unfold NotAlone at h
+  unfold Compound.isScale
+  cases h1 : (c.length == 1) <;> cases h2 : (e.2.power == 1) <;> simp_all
+
+/-- **C09 (offset scale inside the source unit).** Converting a quantity whose unit
+contains an offset scale anywhere but alone with power one is refused: the answer is
+"not convertible" or a conversion error, never a number — so the zero point is never
+added. -/
+theorem C09_refuse_source (a b : Compound) (x : Rat) (ha : a ≠ []) (hb : b ≠ [])
+    (e : UnitKey × State) (he : e ∈ b) (hoff : IsOffsetScale e.1) (hna : NotAlone b e) :
+    Compound.factor a b x = .ok none ∨ Compound.factor a b x = .error .conversion := by
+  unfold Compound.factor
+  have ea : a.isEmpty = false := by cases a <;> simp_all
+  have eb : b.isEmpty = false := by cases b <;> simp_all
+  simp only [ea, eb, Bool.or_self, Bool.false_eq_true, ↓reduceIte]
+  split
+  · left; rfl
+  · right
+    have : Compound.scaleIn true b x = .error .conversion := by
+      unfold Compound.scaleIn
+      apply foldlM_err _ _ _ e he
+      · intro v
+        apply applyConversion_offset_refused e.1 hoff
+        left; simp [isScale_false b e hna]
+      · intro v a' e' h; exact applyConversion_err _ _ _ _ _ h
+    rw [this]; rfl
+
+/-- **C09 (offset scale inside the target unit).** Likewise for the unit converted to. -/
+theorem C09_refuse_target (a b : Compound) (x : Rat) (ha : a ≠ []) (hb : b ≠ [])
+    (e : UnitKey × State) (he : e ∈ a) (hoff : IsOffsetScale e.1) (hna : NotAlone a e) :
+    Compound.factor a b x = .ok none ∨ Compound.factor a b x = .error .conversion := by
+  unfold Compound.factor
+  have ea : a.isEmpty = false := by cases a <;> simp_all
+  have eb : b.isEmpty = false := by cases b <;> simp_all
+  simp only [ea, eb, Bool.or_self, Bool.false_eq_true, ↓reduceIte]
+  split
+  · left; rfl
+  · right
+    cases hin : Compound.scaleIn true b x with
+    | error err =>
+      have : err = .conversion := by
+        unfold Compound.scaleIn at hin
+        -- every error of the fold is a conversion error
+        have key : ∀ (l : Compound) (v : Rat) (err : CErr),
+            l.foldlM (fun v (e : UnitKey × State) =>
+              Compound.applyConversion e.2.power (v * Compound.tenPow (e.2.pfx * e.2.power))
+                (true && Compound.isScale b e.2) (Units.conversion e.1)) v = .error err → err = .conversion := by
+          intro l
+          induction l with
+          | nil => intro v err h; simp [pure, Except.pure] at h
+          | cons a' rest ih =>
+            intro v err h
+            rw [List.foldlM_cons] at h
+            cases hfa : Compound.applyConversion a'.2.power (v * Compound.tenPow (a'.2.pfx * a'.2.power))
+                (true && Compound.isScale b a'.2) (Units.conversion a'.1) with
+            | error e2 =>
+              rw [hfa] at h
+              have : err = e2 := by simpa [bind, Except.bind] using h.symm
+              rw [this]; exact applyConversion_err _ _ _ _ _ hfa
+            | ok v' => rw [hfa] at h; exact ih v' err h
+        exact key b x err hin
+      rw [this]; rfl
+    | ok v =>
+      have : Compound.scaleOut a v = .error .conversion := by
+        unfold Compound.scaleOut
+        apply foldlM_err _ _ _ e he
+        · intro v'
+          rw [applyConversion_offset_refused e.1 hoff _ _ _ (Or.inl (isScale_false a e hna))]
+          rfl
+        · intro v' a' e' h
+          cases hfa : Compound.applyConversion (-a'.2.power) v' (Compound.isScale a a'.2) (Units.conversion a'.1) with
+          | error e2 =>
+            rw [hfa] at h
+            have : e' = e2 := by simpa [bind, Except.bind] using h.symm
+            rw [this]; exact applyConversion_err _ _ _ _ _ hfa
+          | ok w => rw [hfa] at h; simp [bind, Except.bind, pure, Except.pure] at h
+      simp only [bind, Except.bind, this]
+
+/-- **C09 (products and quotients).** Multiplying or dividing a quantity whose unit
+contains an offset scale by another quantity with a unit is refused. -/
+theorem C09_mul_refused (debug : Bool) (a b : Compound) (n : Int) (x y : Rat) (ha : a ≠ []) (hb : b ≠ [])
+    (e : UnitKey × State) (he : e ∈ a ∨ e ∈ b) (hoff : IsOffsetScale e.1) :
+    Compound.mul debug a b n x y = .error .conversion := by
+  have ea : a.isEmpty = false := by cases a <;> simp_all
+  have eb : b.isEmpty = false := by cases b <;> simp_all
+  rw [mul_unfold debug a b n x y ea eb]
+  have herr : ∀ (c : Compound) (v : Rat), e ∈ c → Compound.scaleIn false c v = .error .conversion := by
+    intro c v hc
+    unfold Compound.scaleIn
+    apply foldlM_err _ _ _ e hc
+    · intro v'
+      exact applyConversion_offset_refused e.1 hoff _ _ _ (Or.inl (by simp))
+    · intro v' a' e' h; exact applyConversion_err _ _ _ _ _ h
+  rcases he with he | he
+  · rw [herr a x he]
+  · cases hin : Compound.scaleIn false a x with
+    | error err =>
+      -- an earlier offset scale on the left: also a conversion error
+      have : err = .conversion := by
+        unfold Compound.scaleIn at hin
+        have key : ∀ (l : Compound) (v : Rat) (err : CErr),
+            l.foldlM (fun v (e : UnitKey × State) =>
+              Compound.applyConversion e.2.power (v * Compound.tenPow (e.2.pfx * e.2.power))
+                (false && Compound.isScale a e.2) (Units.conversion e.1)) v = .error err → err = .conversion := by
+          intro l
+          induction l with
+          | nil => intro v err h; simp [pure, Except.pure] at h
+          | cons a' rest ih =>
+            intro v err h
+            rw [List.foldlM_cons] at h
+            cases hfa : Compound.applyConversion a'.2.power (v * Compound.tenPow (a'.2.pfx * a'.2.power))
+                (false && Compound.isScale a a'.2) (Units.conversion a'.1) with
+            | error e2 =>
+              rw [hfa] at h
+              have : err = e2 := by simpa [bind, Except.bind] using h.symm
+              rw [this]; exact applyConversion_err _ _ _ _ _ hfa
+            | ok v' => rw [hfa] at h; exact ih v' err h
+        exact key a x err hin
+      rw [this]
+    | ok v => simp only; rw [herr b y he]
+
+/-- Non-vacuity: `m/°C` is such a unit, and `°C` alone is not. -/
+example : IsOffsetScale (key .C) ∧ NotAlone [(key .C, { power := -1, pfx := 0 }), (.base .Meter, { power := 1, pfx := 0 })]
+    (key .C, { power := -1, pfx := 0 }) := by
+  refine ⟨by unfold IsOffsetScale isProp; rw [conv_C], ?_⟩
+  unfold NotAlone; simp
+
 end Anything.Props.C09
